@@ -15,7 +15,9 @@
      stmt      {t, x, k, kind, ok}            driver saw a statement of call t on a connection
                                               whose open transaction belongs to call x (0: none)
      nest      {t, ran, nil}                  body tried NewSqlConnFromSession(session).Transact
-     bodyEnd   {t, how}                       "nil" | "err" | "panic"
+     bodyEnd   {t, how, v}                    "nil" | "err" | "panic"; v (information, not read here: the
+                                              property does not distinguish values) = the kind of error
+                                              returned / of VALUE panicked with (TxImpl!AllPanicKinds)
      commit    {t, ok} / rollback {t, ok}     driver Tx.Commit / Tx.Rollback answered
      ret       {t, nil, p, rep}               Transact returned (nil?), or panicked (p); rep = kinds of
                                               injected failures found in the returned error
